@@ -44,10 +44,14 @@ func ProcessAcraBlocks(ctx context.Context, inBuffer []byte, outBuffer []byte, p
 				if err != nil {
 					return inBuffer, err
 				}
-				outBuffer = append(outBuffer[:outIndex], processedData...)
-				outIndex += len(processedData)
-				inIndex += n
-				continue
+				// candidate returned as is wasn't AcraBlock (or can't be decrypted): don't skip it as a whole
+				// because real AcraBlock may start inside of it, for example after extra TagSymbol
+				if !bytes.Equal(processedData, acraBlock) {
+					outBuffer = append(outBuffer[:outIndex], processedData...)
+					outIndex += len(processedData)
+					inIndex += n
+					continue
+				}
 			}
 		}
 		// write current read byte to not process him in next iteration
